@@ -66,6 +66,7 @@ fn map_member(m: &mut MemberSpec, leaf_map: &dyn Fn(usize) -> usize, coll_map: &
 		MemberSpec::Leaf(i) | MemberSpec::Wrap(i) | MemberSpec::EmptyOwnedAt(i) => *i = leaf_map(*i),
 		MemberSpec::Coll(j) => *j = coll_map(*j),
 		MemberSpec::Inner(j, _) => *j = coll_map(*j),
+		MemberSpec::Own(_) => {}
 	}
 }
 
@@ -117,7 +118,7 @@ fn byval_leaves(c: &CollSpec) -> usize {
 	}
 	match &c.content {
 		Content::ByVal(ms) => ms.iter().map(count).sum(),
-		_ => 0,
+		Content::ByRef(ms) => ms.iter().filter(|m| matches!(m, MemberSpec::Own(_))).count(),
 	}
 }
 
@@ -186,6 +187,7 @@ fn referenced(world: &WorldSpec, steps: &[&Step]) -> (Vec<bool>, Vec<bool>) {
 				work.push(*j);
 			}
 		}
+		MemberSpec::Own(_) => {}
 	};
 	// lock id -> owning collection (for phantom holds on by-value leaves)
 	let mut owner: Vec<Option<usize>> = vec![None; nleaf];
